@@ -3,6 +3,7 @@ from .tys import *
 
 REGISTRY = {}
 OPAQUE_TYPES = {}    # tname -> {'methods': {name: dict(args=[types], returns=type, ensures=[exprs])}, 'note': str}
+FOLD_TYPES = {}      # step function name -> (state type, element type) for seq_fold
 GROUP_MODELS = {}    # regex name or pattern -> 'specs.module.function' (functional model of capture groups)
 _SCOPE = [None]
 
@@ -34,7 +35,7 @@ class Contract:
                  raises=None, cases=None, split_len=None, loops=None, inline=(), use=(),
                  serves=(), modifies=None, ghost=None, build=None, pure=False, exc_ensures=None,
                  note='', old=(), assume_only=False, result_type=None, abstract_calls=None,
-                 result_cases=None, tactics=(), opaque=(), type_cases=(), split_on=()):
+                 result_cases=None, tactics=(), opaque=(), type_cases=(), split_on=(), mutates=()):
         self.qual = qual
         self.params = params or {}          # name -> type
         self.self_type = self_type          # Obj(...) for methods
@@ -63,6 +64,7 @@ class Contract:
         self.tactics = list(tactics)    # [{'when': {param: [values]}, 'split_len': {...}, 'opaque': [...]}]
         self.type_cases = list(type_cases)  # [(label, {param: type})]: alternative shapes of the inputs (complete split)
         self.split_on = list(split_on)  # boolean expressions; one case each, proved exhaustive (Or valid under requires)
+        self.mutates = list(mutates)    # parameters (mutable abstract objects) whose value the function may change
         self.opaque = list(opaque)      # spec functions kept as uninterpreted functions (not unfolded)
         self.scope = _SCOPE[0]
         REGISTRY[qual] = self
